@@ -119,8 +119,8 @@ Emb(id, pre, post, path, dl, dc1, dca, sole, cont) ==
    cont |-> cont, only |-> <<>>, bs |-> FALSE]
 (* alternative admissible only for a result root of one of the given kinds    *)
 Only(e, kinds) == [e EXCEPT !.only = kinds]
-(* the fragment's line breaks are joined with backslash continuations (same   *)
-(* positions): pfst keeps the source of a root fragment as if enclosed, CPython *)
+(* the fragment's end-of-line comments are blanked and its line breaks joined  *)
+(* with backslash continuations (same positions): pfst keeps the source of a root fragment as if enclosed, CPython *)
 (* has no enclosing syntax for `import a, b` / `case a, b:`                   *)
 BS(e) == [e EXCEPT !.bs = TRUE, !.id = e.id \o "_bs"]
 NoCont == <<>>
@@ -135,7 +135,7 @@ ECallArg    == Emb("callarg", "f(\n", "\n)", <<P("body", 1), P("value", 1), P("a
 ECallKw     == Emb("callkw", "f(\n", "\n)", <<P("body", 1), P("value", 1), P("keywords", 1)>>, 1, 0, 0,
                    <<"args", "keywords">>, NoCont)
 ESubscript  == Emb("subscript", "x[\n", "\n]", <<P("body", 1), P("value", 1), P("slice", 1)>>, 1, 0, 0, <<>>, NoCont)
-ETargets    == Emb("targets", "", " _", <<P("body", 1)>>, 0, 0, 0, <<>>, C1("targets", "targets"))
+ETargets    == Emb("targets", "if 1: ", " _", <<P("body", 1), P("body", 1)>>, 0, 6, 0, <<>>, C1("targets", "targets"))
 EDecos      == Emb("decos", "", "\nclass c: pass", <<P("body", 1)>>, 0, 0, 0, <<>>, C1("decorator_list", "decorator_list"))
 EArglikes   == Emb("arglikes", "f(\n", "\n)", <<P("body", 1), P("value", 1)>>, 1, 0, 0, <<>>,
                    <<[sf |-> "arglikes", hf |-> <<"args", "keywords">>]>>)
